@@ -210,14 +210,14 @@ func (e *env) reader(cs *clientState, br *bufio.Reader) {
 
 // sender writes the numbered inbound messages, some fragmented, with pings
 // between fragments, in random TCP segments. stopAfter < InMsgs cuts it short.
-func (e *env) sender(cs *clientState, rng *rand.Rand, stopAfter int) error {
+func (e *env) sender(cs *clientState, rng *rand.Rand, from, stopAfter int) error {
 	c := e.c
 	key := func() [4]byte {
 		var k [4]byte
 		rng.Read(k[:])
 		return k
 	}
-	for seq := 0; seq < c.InMsgs && seq < stopAfter; seq++ {
+	for seq := from; seq < c.InMsgs && seq < stopAfter; seq++ {
 		var n int
 		switch rng.Intn(10) {
 		case 0:
@@ -285,7 +285,11 @@ func (e *env) runClient(ci int, rng *rand.Rand, addr string, stopEngine func()) 
 	cell := httpx.Cell{TLS: c.TLS}
 	nc, err := cell.Dial(addr)
 	if err != nil {
-		e.r.Inconclusive(fmt.Sprintf("case %d: dial: %v", c.Index, err))
+		if atomic.LoadInt32(&e.stopped) == 0 {
+			e.r.Inconclusive(fmt.Sprintf("case %d: dial: %v", c.Index, err))
+		} else {
+			e.r.Count("clients_that_came_after_the_engine_was_stopped", 1)
+		}
 		return nil
 	}
 	cs := &clientState{idx: ci, nc: nc, local: nc.LocalAddr().String(), got: map[wkey]int{}, lastSeq: map[int]int{}, endSeen: make(chan struct{}), readDone: make(chan struct{})}
@@ -299,13 +303,10 @@ func (e *env) runClient(ci int, rng *rand.Rand, addr string, stopEngine func()) 
 		return nil
 	}
 	go e.reader(cs, br)
-	end := c.End
-	if end == "engine-stop" && (c.Path == "std-readloop" || c.Path == "std-manual-readloop") {
-		end = "server-close" // the engine does not own these connections
-	}
+	end := e.end
 	switch end {
 	case "client-close-frame":
-		if err := e.sender(cs, rng, c.InMsgs); err == nil {
+		if err := e.sender(cs, rng, 0, c.InMsgs); err == nil {
 			cs.sentAll = true
 		}
 		// keep the connection open until the writers' end marker has arrived
@@ -326,7 +327,7 @@ func (e *env) runClient(ci int, rng *rand.Rand, addr string, stopEngine func()) 
 		e.sendClose(cs, rng)
 	case "client-tcp-close":
 		stopAfter := rng.Intn(c.InMsgs + 1)
-		_ = e.sender(cs, rng, stopAfter)
+		_ = e.sender(cs, rng, 0, stopAfter)
 		if rng.Intn(2) == 0 {
 			select {
 			case <-cs.endSeen:
@@ -336,17 +337,17 @@ func (e *env) runClient(ci int, rng *rand.Rand, addr string, stopEngine func()) 
 		}
 		_ = nc.Close()
 	case "server-close":
-		_ = e.sender(cs, rng, c.InMsgs)
+		_ = e.sender(cs, rng, 0, c.InMsgs)
 	case "engine-stop":
 		stopAfter := rng.Intn(c.InMsgs + 1)
-		_ = e.sender(cs, rng, stopAfter)
+		_ = e.sender(cs, rng, 0, stopAfter)
 		if ci == 0 {
 			atomic.StoreInt32(&e.stopped, 1)
 			e.log.Add("engine.stop", "", 0, "")
 			stopEngine()
 			bump()
 		}
-		_ = e.sender(cs, rng, c.InMsgs) // whatever still goes through
+		_ = e.sender(cs, rng, stopAfter, c.InMsgs) // whatever still goes through
 	}
 	// the stream must end now (server closes after the close handshake, the
 	// client closed, the server closed, or the engine stopped)
